@@ -20,9 +20,10 @@ section GCStep
 variable (hash : Key → Nat) (K : Key → Prop)
 
 /-- the pass invariant on a virtual log and a tree -/
-structure VInv (P : Key → TItem → Rec → Prop) (V : List (Pos × Rec)) (tree : List (Nat × TItem)) : Prop where
+structure VInv (P : Key → TItem → Rec → Prop) (N : Key → Prop) (V : List (Pos × Rec)) (tree : List (Nat × TItem)) : Prop where
   recs : ∀ x ∈ V, K x.2.key ∧ x.2.ver ≠ 0
   nodup : (V.map (·.1)).Nodup
+  dom : ∀ k, K k → AMap.get tree (hash k) = none → N k
   key : ∀ k, K k →
     (∃ it r, AMap.get tree (hash k) = some it ∧ lastOf k V = some (it.pos, r) ∧ P k it r) ∨
     (AMap.get tree (hash k) = none ∧ (lastOf k V = none ∨ ∃ p r, lastOf k V = some (p, r) ∧ ¬ r.ver > 0))
@@ -107,20 +108,24 @@ theorem last_at_mid {L1 L2 : List (Pos × Rec)} {x : Pos × Rec} {r0 : Rec}
 variable {hash K}
 
 /-- (A) the record the tree points at is relocated and the tree repointed -/
-theorem vinv_relocate {P : Key → TItem → Rec → Prop} (hP : ∀ k it r p', P k it r → P k { it with pos := p' } r)
+theorem vinv_relocate {P : Key → TItem → Rec → Prop} {N : Key → Prop} (hP : ∀ k it r p', P k it r → P k { it with pos := p' } r)
     (hInj : InjOn hash K) {L1 L2 : List (Pos × Rec)} {p : Pos} {r : Rec} {tree : List (Nat × TItem)} {it : TItem}
-    (h : VInv hash K P (L1 ++ (p, r) :: L2) tree)
+    (h : VInv hash K P N (L1 ++ (p, r) :: L2) tree)
     (hit : AMap.get tree (hash r.key) = some it) (hpos : it.pos = p) (p' : Pos)
     (hf : ∀ y ∈ L1 ++ L2, y.1 ≠ p') :
-    VInv hash K P (L1 ++ (p', r) :: L2) (AMap.set tree (hash r.key) { it with pos := p' }) := by
+    VInv hash K P N (L1 ++ (p', r) :: L2) (AMap.set tree (hash r.key) { it with pos := p' }) := by
   have hkr : K r.key := (h.recs (p, r) (by simp)).1
-  refine ⟨?_, nodup_mid_replace p' r h.nodup hf, ?_⟩
+  refine ⟨?_, nodup_mid_replace p' r h.nodup hf, ?_, ?_⟩
   · intro y hy
     simp only [List.mem_append, List.mem_cons] at hy
     rcases hy with hy | rfl | hy
     · exact h.recs y (by simp [hy])
     · exact h.recs (p, r) (by simp)
     · exact h.recs y (by simp [hy])
+  · intro k hk hn
+    by_cases e : hash r.key = hash k
+    · rw [← e, AMap.get_set_self] at hn; cases hn
+    · rw [AMap.get_set_ne _ _ _ _ e] at hn; exact h.dom k hk hn
   · intro k hk
     by_cases hkk : r.key = k
     · subst hkk
@@ -143,12 +148,12 @@ theorem vinv_relocate {P : Key → TItem → Rec → Prop} (hP : ∀ k it r p', 
       exact h.key k hk
 
 /-- (B) a delete marker of a key the tree does not know is relocated; the tree is untouched -/
-theorem vinv_relocate_unknown {P : Key → TItem → Rec → Prop} {L1 L2 : List (Pos × Rec)} {p : Pos} {r : Rec}
+theorem vinv_relocate_unknown {P : Key → TItem → Rec → Prop} {N : Key → Prop} {L1 L2 : List (Pos × Rec)} {p : Pos} {r : Rec}
     {tree : List (Nat × TItem)} (hInj : InjOn hash K)
-    (h : VInv hash K P (L1 ++ (p, r) :: L2) tree)
+    (h : VInv hash K P N (L1 ++ (p, r) :: L2) tree)
     (hit : AMap.get tree (hash r.key) = none) (hv : r.ver < 0) (p' : Pos) (hf : ∀ y ∈ L1 ++ L2, y.1 ≠ p') :
-    VInv hash K P (L1 ++ (p', r) :: L2) tree := by
-  refine ⟨?_, nodup_mid_replace p' r h.nodup hf, ?_⟩
+    VInv hash K P N (L1 ++ (p', r) :: L2) tree := by
+  refine ⟨?_, nodup_mid_replace p' r h.nodup hf, h.dom, ?_⟩
   · intro y hy
     simp only [List.mem_append, List.mem_cons] at hy
     rcases hy with hy | rfl | hy
@@ -180,12 +185,12 @@ theorem vinv_relocate_unknown {P : Key → TItem → Rec → Prop} {L1 L2 : List
       exact h.key k hk
 
 /-- dropping the middle record when it is not the last record of its key changes nobody's last record -/
-theorem vinv_drop_of_later {P : Key → TItem → Rec → Prop} {L1 L2 : List (Pos × Rec)} {x : Pos × Rec}
+theorem vinv_drop_of_later {P : Key → TItem → Rec → Prop} {N : Key → Prop} {L1 L2 : List (Pos × Rec)} {x : Pos × Rec}
     {tree : List (Nat × TItem)}
-    (h : VInv hash K P (L1 ++ x :: L2) tree)
+    (h : VInv hash K P N (L1 ++ x :: L2) tree)
     (hlater : ∀ y, lastOf x.2.key (L1 ++ x :: L2) = some y → lastOf x.2.key L2 = some y) :
-    VInv hash K P (L1 ++ L2) tree := by
-  refine ⟨fun y hy => h.recs y ?_, nodup_mid_drop h.nodup, ?_⟩
+    VInv hash K P N (L1 ++ L2) tree := by
+  refine ⟨fun y hy => h.recs y ?_, nodup_mid_drop h.nodup, h.dom, ?_⟩
   · simp only [List.mem_append, List.mem_cons] at hy ⊢
     rcases hy with hy | hy
     · exact Or.inl hy
@@ -209,11 +214,11 @@ theorem vinv_drop_of_later {P : Key → TItem → Rec → Prop} {L1 L2 : List (P
       exact h.key k hk
 
 /-- (C) a record of a known key that the tree does not point at is dropped -/
-theorem vinv_drop_known {P : Key → TItem → Rec → Prop} {L1 L2 : List (Pos × Rec)} {p : Pos} {r : Rec}
+theorem vinv_drop_known {P : Key → TItem → Rec → Prop} {N : Key → Prop} {L1 L2 : List (Pos × Rec)} {p : Pos} {r : Rec}
     {tree : List (Nat × TItem)} {it : TItem}
-    (h : VInv hash K P (L1 ++ (p, r) :: L2) tree)
+    (h : VInv hash K P N (L1 ++ (p, r) :: L2) tree)
     (hit : AMap.get tree (hash r.key) = some it) (hpos : it.pos ≠ p) :
-    VInv hash K P (L1 ++ L2) tree := by
+    VInv hash K P N (L1 ++ L2) tree := by
   apply vinv_drop_of_later h
   intro y hy
   have hkr : K r.key := (h.recs (p, r) (by simp)).1
@@ -231,11 +236,11 @@ theorem vinv_drop_known {P : Key → TItem → Rec → Prop} {L1 L2 : List (Pos 
   · rw [hit] at h1; cases h1
 
 /-- (D) a live record of a key the tree does not know is dropped (it cannot be the last record of its key) -/
-theorem vinv_drop_unknown_live {P : Key → TItem → Rec → Prop} {L1 L2 : List (Pos × Rec)} {p : Pos} {r : Rec}
+theorem vinv_drop_unknown_live {P : Key → TItem → Rec → Prop} {N : Key → Prop} {L1 L2 : List (Pos × Rec)} {p : Pos} {r : Rec}
     {tree : List (Nat × TItem)}
-    (h : VInv hash K P (L1 ++ (p, r) :: L2) tree)
+    (h : VInv hash K P N (L1 ++ (p, r) :: L2) tree)
     (hit : AMap.get tree (hash r.key) = none) (hv : r.ver > 0) :
-    VInv hash K P (L1 ++ L2) tree := by
+    VInv hash K P N (L1 ++ L2) tree := by
   apply vinv_drop_of_later h
   intro y hy
   have hkr : K r.key := (h.recs (p, r) (by simp)).1
@@ -257,12 +262,12 @@ theorem vinv_drop_unknown_live {P : Key → TItem → Rec → Prop} {L1 L2 : Lis
 
 /-- (E) a pass that starts at file 0: a record of a key the tree does not know is dropped, and so was every earlier
     record of that key (nothing of an unknown key is in the decided part) -/
-theorem vinv_drop_unknown_all {P : Key → TItem → Rec → Prop} {L1 L2 : List (Pos × Rec)} {p : Pos} {r : Rec}
+theorem vinv_drop_unknown_all {P : Key → TItem → Rec → Prop} {N : Key → Prop} {L1 L2 : List (Pos × Rec)} {p : Pos} {r : Rec}
     {tree : List (Nat × TItem)} (hInj : InjOn hash K)
-    (h : VInv hash K P (L1 ++ (p, r) :: L2) tree)
+    (h : VInv hash K P N (L1 ++ (p, r) :: L2) tree)
     (hit : AMap.get tree (hash r.key) = none)
     (hL1 : ∀ y ∈ L1, AMap.get tree (hash y.2.key) ≠ none) :
-    VInv hash K P (L1 ++ L2) tree := by
+    VInv hash K P N (L1 ++ L2) tree := by
   have hkr : K r.key := (h.recs (p, r) (by simp)).1
   have hrecs : ∀ y ∈ L1 ++ L2, K y.2.key ∧ y.2.ver ≠ 0 := by
     intro y hy
@@ -271,7 +276,7 @@ theorem vinv_drop_unknown_all {P : Key → TItem → Rec → Prop} {L1 L2 : List
     rcases hy with hy | hy
     · exact Or.inl hy
     · exact Or.inr (Or.inr hy)
-  refine ⟨hrecs, nodup_mid_drop h.nodup, ?_⟩
+  refine ⟨hrecs, nodup_mid_drop h.nodup, h.dom, ?_⟩
   intro k hk
   by_cases hkk : r.key = k
   · subst hkk
